@@ -134,6 +134,14 @@ Clauses(e) ==
     [] e.fn = "msg.parse_teams" ->
          << <<"base", e.base = TeamsMsg(e.ns, e.ew)>>,
             <<"value", e.out_ns = e.ns /\ e.out_ew = e.ew>> >>
+    [] e.fn = "msg.handshake" ->
+         \* the bundled client's side of the admission: given the two lines the
+         \* table manager sends (seated, teams) it goes through and says the
+         \* three lines of the protocol, whatever the team names contain
+         << <<"sent", e.sent = << ConnectMsg(e.team, e.seat, 18),
+                                   SeatFormal[e.seat + 1] \o " ready for teams",
+                                   SeatFormal[e.seat + 1] \o " ready to start" >> >>,
+            <<"opponents", e.opp = e.other>> >>
     [] e.fn = "msg.parse_connect" ->
          << <<"base", e.base = ConnectMsg(e.team, e.seat, e.version)>>,
             <<"value", e.out_team = e.team /\ e.out_seat = e.seat
